@@ -622,24 +622,33 @@ def large_specs(draw, aggs, max_k=10, many_ok=True, min_nd=0):
     """Hundreds to thousands of rows, few or MANY categories (extent ~ N / 3), up to ten fact columns: size-dependent
     paths inside the aggregate functions (buffers, bincount lengths, per-category loops) are crossed.
     The row data is generated from three small integers by expand()."""
-    N = draw(st.sampled_from([256, 300, 1024, 1100, 2048, 2500, 256, 1024, 65536]))
-    nd = draw(st.sampled_from([n for n in [0, 1, 1, 1, 2, 2] if n >= min_nd]))
+    N = draw(st.sampled_from([256, 300, 1024, 1100, 2048, 2500, 2500, 4096, 65536]))
+    nd = draw(st.sampled_from([n for n in [0, 1, 1, 2, 2, 2] if n >= min_nd]))
+    recipe = [draw(st.integers(1, 9)), draw(st.integers(0, 9)), draw(st.integers(0, 9))]
+    rows = draw(st.sampled_from(["random", "sorted", "sorted", "blocks64", "blocks1024"]))
+    density = draw(st.sampled_from(["quarter", "quarter", "rare"]))
     dims = []
     for i in range(nd):
         many = many_ok and i == 0 and N < 60000 and draw(st.booleans())
         extent = draw(st.sampled_from([N // 3, 257, 1000])) if many else draw(st.sampled_from([1, 2, 3, 4, 5]))
         tail = [] if (many or i > 0) else list(draw(st.sampled_from([(), (), (2,), (3,)])))
-        dims.append({"tail": tail, "extent": extent, "common": draw(st.sampled_from([0, 1, extent - 1, extent])),
-                     "big": False})
+        fav = (recipe[1] + i) % extent  # the category most rows get (see expand)
+        others = [v for v in range(extent + 1) if v != fav]
+        common = draw(st.sampled_from([0, 1, extent - 1, extent]))
+        if density == "rare" and draw(st.integers(0, 3)):
+            common = fav  # a truly sparse index: one listed row in ~200
+        elif rows != "random" and i == 0 and others and draw(st.integers(0, 3)):
+            common = draw(st.sampled_from(others))  # the long runs of a sorted file are LISTED entries, not the common value
+        dims.append({"tail": tail, "extent": extent, "common": common, "big": False})
     agg = draw(st.sampled_from(aggs))
     case = {"N": N, "dims": dims, "shape_mode": draw(st.sampled_from(["inferred", "exact"])), "pads": [1] * nd,
             "readonly": False, "reverse": draw(st.booleans()), "alias": None, "agg": agg,
-            "recipe": [draw(st.integers(1, 9)), draw(st.integers(0, 9)), draw(st.integers(0, 9))],
+            "recipe": recipe,
             # row order: hashed noise, SORTED by the first dimension (a file grouped by wave / country: every category
             # is one long run of consecutive rows), or blocks of exactly 64 / 1024 identical rows
-            "rows": draw(st.sampled_from(["random", "sorted", "sorted", "blocks64", "blocks1024"])),
+            "rows": rows,
             # a quarter of the rows outside the favourite category, or only one row in ~200 (very sparse indexes)
-            "density": draw(st.sampled_from(["quarter", "quarter", "rare"])),
+            "density": density,
             # missing pattern of facts and weights: hashed (about one row in 11 / 13) or none at all
             "valid": draw(st.sampled_from(["hashed", "hashed", "all"]))}
     case["fact"] = None if agg == "count" else {
